@@ -234,6 +234,9 @@ def gen_case(rng, uid):
                 if a["name"] in seen:
                     lst.remove(a)
                 seen.add(a["name"])
+        # a base-class annotation is only "shadowed" while the subclass's own annotation of that name survived the de-duplication
+        own = {a["name"] for a in c["attrs"]}
+        c["base_attrs"] = [b for b in c["base_attrs"] if b["rel"] != "shadowed-by-subclass-annotation" or b["name"] in own]
     twin = None
     if ncomp >= 2 and rng.random() < 0.25:
         # two components that are instances of ONE class; its constructor takes a flag (delivered under the component
